@@ -661,6 +661,7 @@ def handle (st : DState) (line : String) : String × DState :=
      | ["cctppause", which, b] => upd (.cctpPause (which == "burn") (b == "1"))
      | ["burnlimit", n] => (match parseNat n with | some n => upd (.burnLimit n) | none => ("bad-op", st))
      | ["recvenabled", b] => upd (.recvEnabled (b == "1"))
+     | ["meta", _, _, _, _, _, _] => ("ok", st)   -- relayer, sequence, timeout, block height and time: no part in anything modelled
      | ["role", _, a] => (match unhxS a with | some _ => ("ok", st) | none => ("bad-op", st))  -- roles of other modules: no part in anything modelled
      | ["hyp", "setup", _] => ("ok", st)
      | ["hyp", "token", t, d] => (match unhxB t, unhxS d with | some t, some d => upd (.hypToken t d) | _, _ => ("bad-op", st))
